@@ -95,6 +95,43 @@ pub fn s3(ctx: &Ctx) {
     }
 }
 
+/// S9: calls the writer must refuse, between the accepted points: the record count, the points and
+/// their order are those of the accepted calls only
+pub fn s9(ctx: &Ctx) {
+    let protos = cat::prototypes();
+    let pi = ctx.pick("proto", protos.len());
+    let proto = protos[pi].1.clone();
+    let n = ctx.pick("npoints", 4);
+    let cap = [None, Some(1), Some(2)][ctx.pick("cap", 3)];
+    let kind = ctx.pick("refusal", 3);
+    let mask = ctx.pick("positions", 1 << (n + 1));
+    let mut cl = cloud(proto.clone(), n, 5);
+    cl.cap = cap;
+    // a value vector that cannot be stored: wrong type in the last value / wrong type in the
+    // first value / one value too many
+    let template: Vec<m::Val> = cat::points_for(&proto, 1, 99).remove(0);
+    let flip = |v: &m::Val| if matches!(v, m::Val::F32(_) | m::Val::F64(_)) { m::Val::Int(0) } else { m::Val::F64(0.5) };
+    let mut bad = template.clone();
+    match kind {
+        0 => {
+            let l = bad.len() - 1;
+            bad[l] = flip(&template[l]);
+        }
+        1 => bad[0] = flip(&template[0]),
+        _ => bad.push(m::Val::Int(1)),
+    }
+    for at in 0..=n {
+        if mask & (1 << at) != 0 {
+            cl.rejects.push((at, bad.clone()));
+        }
+    }
+    let p = Program { guid: "g".into(), ops: vec![Op::Cloud(cl)], ..Default::default() };
+    ctx.describe(|| format!("{} with refused calls (kind {kind}) in front of the accepted points {:?}", describe(&p), (0..=n).filter(|a| mask & (1 << a) != 0).collect::<Vec<_>>()));
+    if roundtrip(ctx, &p, P).is_some() {
+        ctx.nontrivial();
+    }
+}
+
 /// S8: scale - counts that cross 255 / 65535: many point clouds, many points, many packets
 pub fn s8(ctx: &Ctx) {
     let k = ctx.pick("scale-case", 9 + 10 + 4 + 1);
@@ -267,14 +304,17 @@ pub fn s6(ctx: &Ctx) {
     let c = [1usize, 3][ctx.pick("cap", 2)];
     let n = [0usize, 1, 4][ctx.pick("npoints", 3)];
     let two = ctx.pick("two-extensions", 2) == 1;
+    // prefix and attribute name rotate through every character class the writer accepts
+    const NAMES: [(&str, &str); 6] = [("ext", "attr"), ("my-ext", "q-1"), ("a_b", "_x"), ("Z9", "A-_-9"), ("e-", "n_"), ("_", "a")];
+    let (pfx, attr) = NAMES[ti % NAMES.len()];
     let mut proto = cat::xyz(cat::F32);
-    let e = cat::ext_rec("ext", "attr", types[ti].clone());
+    let e = cat::ext_rec(pfx, attr, types[ti].clone());
     if first {
         proto.insert(0, e);
     } else {
         proto.push(e);
     }
-    let mut ops = vec![Op::Ext("ext".into(), "http://example.com/ext".into())];
+    let mut ops = vec![Op::Ext(pfx.into(), "http://example.com/ext".into())];
     if two {
         ops.insert(0, Op::Ext("other".into(), "http://example.com/other".into()));
         proto.push(cat::ext_rec("other", "cartesianX", cat::F64));
